@@ -338,6 +338,10 @@ package evaluator
 //@   defines err == nil ==> isEv(e.root, node, current, variables, result)
 //@   ensures[C01 C20] case.And: isType(node, "*parser.AndNode") && err == nil ==> (exists l Val :: isEv(e.root, as(node, "parser.AndNode").Left, current, variables, l) && (!truthy(l) ==> result == l) && (truthy(l) ==> isEv(e.root, as(node, "parser.AndNode").Right, current, variables, result)))
 //@   ensures[C01 C20] case.Or: isType(node, "*parser.OrNode") && err == nil ==> (exists l Val :: isEv(e.root, as(node, "parser.OrNode").Left, current, variables, l) && (truthy(l) ==> result == l) && (!truthy(l) ==> isEv(e.root, as(node, "parser.OrNode").Right, current, variables, result)))
+// short-circuit (C20): a failure of && / || is the left operand's failure, or the right operand's when the left operand
+// let it be evaluated - a false-like left operand of && (true-like of ||) is the outcome whatever the right one would do
+//@   ensures[C20 C08] case.And.fail: isType(node, "*parser.AndNode") && err != nil ==> (exists r0 Val :: returns("evaluator.evaluator.evaluate", e, as(node, "parser.AndNode").Left, current, variables, r0, err)) || (exists l Val, r1 Val :: isEv(e.root, as(node, "parser.AndNode").Left, current, variables, l) && truthy(l) && returns("evaluator.evaluator.evaluate", e, as(node, "parser.AndNode").Right, current, variables, r1, err))
+//@   ensures[C20 C08] case.Or.fail: isType(node, "*parser.OrNode") && err != nil ==> (exists r0 Val :: returns("evaluator.evaluator.evaluate", e, as(node, "parser.OrNode").Left, current, variables, r0, err)) || (exists l Val, r1 Val :: isEv(e.root, as(node, "parser.OrNode").Left, current, variables, l) && !truthy(l) && returns("evaluator.evaluator.evaluate", e, as(node, "parser.OrNode").Right, current, variables, r1, err))
 //@   ensures[C01 C20] case.Not: isType(node, "*parser.NotNode") && err == nil ==> (exists c Val :: isEv(e.root, as(node, "parser.NotNode").Child, current, variables, c) && result == mkBool(!truthy(c)))
 //@   ensures[C01 C20] case.Equal: isType(node, "*parser.EqualNode") && err == nil ==> (exists l Val, r Val :: isEv(e.root, as(node, "parser.EqualNode").Left, current, variables, l) && isEv(e.root, as(node, "parser.EqualNode").Right, current, variables, r) && result == mkBool(specEq(heap, l, r)))
 //@   ensures[C01 C20] case.NotEqual: isType(node, "*parser.NotEqualNode") && err == nil ==> (exists l Val, r Val :: isEv(e.root, as(node, "parser.NotEqualNode").Left, current, variables, l) && isEv(e.root, as(node, "parser.NotEqualNode").Right, current, variables, r) && result == mkBool(!specEq(heap, l, r)))
@@ -1180,3 +1184,28 @@ package evaluator
 // equal descends into the elements of its first argument (a data value is a finite tree: the properties say so)
 //@ func equal
 //@   measure valHeight(x)
+
+// ---------------------------------------------------------------------------
+// error propagation (C08): a helper that evaluates a node per element fails with a type error of its own or with
+// exactly the error that evaluate returned - the category of a fault inside an expression reference, a projection
+// or a filter is the category evaluate gave it (an undefined variable stays an undefined variable)
+//@ func evaluator.arrayMaxBy
+//@   ensures[C08] propagate: err != nil ==> isTypeErr(err) || (exists c Val, r Val :: returns("evaluator.evaluator.evaluate", e, node, c, variables, r, err))
+//@ func evaluator.arrayMinBy
+//@   ensures[C08] propagate: err != nil ==> isTypeErr(err) || (exists c Val, r Val :: returns("evaluator.evaluator.evaluate", e, node, c, variables, r, err))
+//@ func evaluator.mapArray
+//@   ensures[C08] propagate: err != nil ==> isTypeErr(err) || (exists c Val, r Val :: returns("evaluator.evaluator.evaluate", e, node, c, variables, r, err))
+//@ func evaluator.sortArrayBy
+//@   ensures[C08] propagate: err != nil ==> isTypeErr(err) || (exists c Val, r Val :: returns("evaluator.evaluator.evaluate", e, node, c, variables, r, err))
+//@ func evaluator.groupBy
+//@   ensures[C08] propagate: err != nil ==> isTypeErr(err) || (exists c Val, r Val :: returns("evaluator.evaluator.evaluate", e, node, c, variables, r, err))
+//@ func evaluator.filter
+//@   ensures[C08] propagate: err != nil ==> isTypeErr(err) || (exists c Val, r Val :: returns("evaluator.evaluator.evaluate", e, node, c, variables, r, err))
+//@ func evaluator.projectArray
+//@   ensures[C08] propagate: err != nil ==> isTypeErr(err) || (exists c Val, r Val :: returns("evaluator.evaluator.evaluate", e, node, c, variables, r, err))
+//@ func evaluator.projectObject
+//@   ensures[C08] propagate: err != nil ==> isTypeErr(err) || (exists c Val, r Val :: returns("evaluator.evaluator.evaluate", e, node, c, variables, r, err))
+//@ func evaluator.flattenAndProjectArray
+//@   ensures[C08] propagate: err != nil ==> isTypeErr(err) || (exists c Val, r Val :: returns("evaluator.evaluator.evaluate", e, node, c, variables, r, err))
+//@ func evaluator.filterAndProjectArray
+//@   ensures[C08] propagate: err != nil ==> isTypeErr(err) || (exists c Val, r Val :: returns("evaluator.evaluator.evaluate", e, filter, c, variables, r, err)) || (exists c Val, r Val :: returns("evaluator.evaluator.evaluate", e, node, c, variables, r, err))
